@@ -15,6 +15,11 @@ import math
 
 import numpy
 
+
+def _qt_bounds(region):
+    from .c17 import qt_bounds
+    return qt_bounds(region)
+
 from .core import Driver, frac
 from .c03_seq import _guarded
 
@@ -76,11 +81,37 @@ def bin_of(e, m):
     return k if k >= 0 else None
 
 
+# =============================================================================================== private helpers of pyCSEP
+def private(run, owner, name, *probe, **probe_kw):
+    """a PRIVATE function / method of the tree under test that this harness drives directly, or None when it is not there
+    (renamed, removed, other signature): then the direct cases are skipped — `helper-missing:<name>` in the histogram, a line
+    in the assumptions — and detection rests on the public catalog methods, which reach the same mechanism."""
+    import inspect
+    f = getattr(owner, name, None)
+    ok = callable(f)
+    if ok:
+        try:
+            inspect.signature(f).bind(*probe, **probe_kw)
+        except TypeError:
+            ok = False
+        except ValueError:      # no introspectable signature: try it
+            pass
+    if not ok:
+        run.count(f"helper-missing:{name}")
+        note = (f"private helper {name} is not available with the driven signature on the tree under test: its direct cases are "
+                f"skipped; the public catalog methods cover the mechanism")
+        if note not in run.assumptions:
+            run.assumptions.append(note)
+        return None
+    return f
+
+
 # =============================================================================================== (a) quadtree helpers
-def call_qt(region, evs, which, mag_bins):
+def call_qt(region, evs, which, mag_bins, f=None):
     """(result, state): result = ('ok', nested ints) | ('E', exception class name); state = catalog content afterwards"""
     cat = _cat(region, evs)
-    f = region._get_spatial_counts if which == "sc" else region._get_spatial_magnitude_counts
+    if f is None:
+        f = region._get_spatial_counts if which == "sc" else region._get_spatial_magnitude_counts
     try:
         with quiet():
             out = f(cat, mag_bins=mag_bins)
@@ -107,7 +138,7 @@ def check_qthelper(run, drv, pending, case):
     evs = [(float(a), float(b), float(c)) for a, b, c in case["events"]]
     mode = case.get("mag_bins", "list")
     region = QuadtreeGrid2D.from_quadkeys(keys, magnitudes=numpy.array(edges))
-    b = numpy.asarray(region.bounds, dtype=float)
+    b = _qt_bounds(region)
     bb = region.get_bbox()
     S, N = float(bb[2]), float(bb[3])
     if S != float(b[:, 1].min()) or N != float(b[:, 3].max()):
@@ -156,9 +187,13 @@ def check_qthelper(run, drv, pending, case):
     if any(e[2] == min_edge for e in evs):
         run.count("qthelper:magnitude-at-min-edge")
     got = {}
+    fs = {w: private(run, region, "_get_spatial_counts" if w == "sc" else "_get_spatial_magnitude_counts", None, mag_bins=mb)
+          for w in which}
+    if any(f is None for f in fs.values()):
+        return
     for w in which:
         try:
-            res, state = call_qt(region, evs, w, mb)
+            res, state = call_qt(region, evs, w, mb, fs[w])
         except Exception as ex:
             run.oracle_failure(case, f"harness could not drive the helper: {type(ex).__name__}: {ex}")
             return
@@ -178,8 +213,11 @@ def check_qthelper(run, drv, pending, case):
             if not ok:
                 run.oracle_failure(case, f"{name} raised {res[1]} although every event at or above the minimum magnitude "
                                          f"lies in a cell (expected {str(exp)[:120]})")
-        # the catalog object afterwards: filtered in place (as the code is) or untouched (side-effect-free rewrite)
-        if state == kept:
+        # the catalog object afterwards: filtered in place (as the code is) or untouched (side-effect-free rewrite); after a
+        # REJECTION the property says nothing about the object (a rewrite may raise before, between or after its filters)
+        if res[0] == "E" and state != kept and state != evs:
+            run.count("qthelper:state-after-rejection-other(not judged)")
+        elif state == kept:
             run.count("qthelper:state-filtered-in-place")
         elif state == evs:
             run.count("qthelper:state-untouched")
@@ -191,7 +229,7 @@ def check_qthelper(run, drv, pending, case):
             try:
                 ref = _ints(_cat(region, evs).spatial_counts()) if w == "sc" else \
                     _ints(_cat(region, evs).spatial_magnitude_counts(mag_bins=numpy.array(edges)))
-            except ValueError:
+            except Exception:
                 ref = None      # the catalog-level space-magnitude gridding rejects catalogs with unlocated events
             if ref is not None and ref != res[1]:
                 run.oracle_failure(case, f"{name} differs from the catalog-level method although nothing is filtered")
@@ -233,11 +271,31 @@ def check_cart_helpers(run, drv, pending, case, region, cells, cell_of, edges, e
     cl = [cell_of(lon, lat) for lon, lat, _ in evs]
     bl = [bin_of(e, m) for _, _, m in evs]
     run.count("cart-helpers")
-    args = (region.bbox_mask, region.idx_map, region.xs, region.ys)
+    internals = [getattr(region, a, None) for a in ("bbox_mask", "idx_map", "xs", "ys")]
+    if any(a is None for a in internals):
+        run.count("helper-missing:region.bbox_mask/idx_map")
+        note = ("the internal arrays region.bbox_mask / idx_map are not available on the tree under test: the direct cases of the "
+                "_bin_catalog_* helpers are skipped; the public catalog methods cover the mechanism")
+        if note not in run.assumptions:
+            run.assumptions.append(note)
+        args = None
+    else:
+        args = tuple(internals)
+    f_sc = args and private(run, regions, "_bin_catalog_spatial_counts", lons, lats, ncell, *args)
+    f_pr = args and private(run, regions, "_bin_catalog_probability", lons, lats, ncell, *args)
+    f_smc = args and private(run, regions, "_bin_catalog_spatio_magnitude_counts", lons, lats, mags, ncell, *args, numpy.asarray(e))
+    if not (f_sc and f_pr and f_smc):
+        # the private binning helpers are not there: only the public index methods / dataframe columns
+        region.magnitudes = numpy.asarray(e)
+        check_idx(run, drv, pending, case, region, "cart", cl, bl, e, evs, cart_args, True)
+        region.magnitudes = None
+        check_idx(run, drv, pending, case, region, "cart", cl, bl, e, evs, cart_args, False)
+        region.magnitudes = numpy.asarray(e)
+        return
     try:
-        sc = _ints(regions._bin_catalog_spatial_counts(lons, lats, ncell, *args))
-        pr = _ints(regions._bin_catalog_probability(lons, lats, ncell, *args))
-        smc, skipped = regions._bin_catalog_spatio_magnitude_counts(lons, lats, mags, ncell, *args, numpy.asarray(e))
+        sc = _ints(f_sc(lons, lats, ncell, *args))
+        pr = _ints(f_pr(lons, lats, ncell, *args))
+        smc, skipped = f_smc(lons, lats, mags, ncell, *args, numpy.asarray(e))
         smc = _ints(smc)
         skipped = [tuple(float(v) for v in s) for s in skipped]
     except Exception as ex:
@@ -270,13 +328,13 @@ def check_cart_helpers(run, drv, pending, case, region, cells, cell_of, edges, e
         ref = _ints(_cat(region, evs).spatial_counts())
         if ref != sc:
             run.oracle_failure(case, "_bin_catalog_spatial_counts differs from CSEPCatalog.spatial_counts")
-    except ValueError:
+    except Exception:
         pass
     try:
         ref = _ints(_cat(region, evs).spatial_magnitude_counts())
         if ref != smc or skipped:
             run.oracle_failure(case, "_bin_catalog_spatio_magnitude_counts differs from CSEPCatalog.spatial_magnitude_counts")
-    except ValueError:
+    except Exception:
         pass
     la, lo, ma = rows_arg(evs)
     ed = ",".join(frac(x) for x in e)
@@ -305,30 +363,51 @@ def check_idx(run, drv, pending, case, region, kind, cl, bl, e, evs, region_args
 
     def cols():
         df = _cat(region, evs).to_dataframe()
-        rid = [int(v) for v in df['region_id'].tolist()]
-        mid = [int(v) for v in df['mag_id'].tolist()] if 'mag_id' in df.columns else None
+
+        def ints(col):      # a missing value (NaN / None / <NA>) of a friendlier rewrite stays None
+            return [None if (v is None or v != v) else int(v) for v in df[col].tolist()]
+        rid = ints('region_id') if 'region_id' in df.columns else None
+        mid = ints('mag_id') if 'mag_id' in df.columns else None
         if len(df) != n:
             raise RuntimeError("dataframe length")
         return rid, mid
     df = call(cols)
+    ncell_now = int(region.num_nodes)
+
+    def no_misplacement(rid):
+        """every event in a cell carries that cell; an event in NO cell carries no cell index (missing / out of range)"""
+        return isinstance(rid, list) and len(rid) == n and all(
+            (a == c) if c is not None else (a is None or not 0 <= a < ncell_now) for a, c in zip(rid, cl))
     run.count(f"idx:{kind}:{'bound' if bound else 'unbound'}")
     e_mid = [-1 if k is None else k for k in bl]
     located = [c for c in cl if c is not None]
     # --- direct oracle
+    # What the property demands: no event is given the cell of another one. With an event in no cell the Cartesian lookup rejects
+    # the catalog; the quadtree lookup leaves such events out of the index array (so the dataframe column cannot be assigned).
+    # Incidental and accepted, never demanded: the quadtree lookup of the current code RAISES on an empty catalog — the empty
+    # index array / empty frame is what the property's statement gives.
+    g_sidx = (sidx[0], sidx[1] if sidx[0] == "ok" else None)
+    g_df = (df[0], df[1] if df[0] == "ok" else None)
     if kind == "cart":
-        e_sidx = ("E", None) if anyout else ("ok", list(cl))
-        e_df = ("E", None) if anyout else ("ok", (list(cl), e_mid if bound else None))
+        e_sidx = [("E", None)] if anyout else [("ok", list(cl))]
     else:
-        e_sidx = ("E", None) if n == 0 else ("ok", located)
-        e_df = ("E", None) if (n == 0 or anyout) else ("ok", (list(cl), e_mid if bound else None))
-    if (sidx[0], sidx[1] if sidx[0] == "ok" else None) != e_sidx:
+        e_sidx = [("E", None), ("ok", [])] if n == 0 else [("ok", located)]
+    want_mid = e_mid if bound else None
+    if anyout and n:
+        df_ok = g_df[0] == "E" or (no_misplacement(g_df[1][0]) and g_df[1][1] == want_mid)
+    elif n == 0 and kind != "cart":
+        df_ok = g_df[0] == "E" or (g_df[1][0] in ([], None) and g_df[1][1] in ([], None))
+    else:
+        df_ok = g_df == ("ok", (list(cl), want_mid))
+    e_df = "a rejection or no cell index for events in no cell" if (anyout and n) else ("ok", (list(cl), want_mid))
+    if g_sidx not in e_sidx:
         run.oracle_failure(case, f"get_spatial_idx {str(sidx)[:120]} but the exact cells are {str(e_sidx)[:120]}")
     if bound:
         if midx != ("ok", e_mid):
             run.oracle_failure(case, f"get_mag_idx {str(midx)[:120]} but the exact bins are {str(e_mid)[:120]}")
     elif midx[0] != "E":
         run.oracle_failure(case, "get_mag_idx returned without magnitude bins bound to the region")
-    if (df[0], df[1] if df[0] == "ok" else None) != e_df:
+    if not df_ok:
         run.oracle_failure(case, f"dataframe columns {str(df)[:160]} but exact (region_id, mag_id) are {str(e_df)[:160]}")
     # the indices are the ones the count arrays use
     if sidx[0] == "ok":
@@ -337,7 +416,7 @@ def check_idx(run, drv, pending, case, region, kind, cl, bl, e, evs, region_args
             sc = _ints(_cat(region, evs).spatial_counts())
             if sc != numpy.bincount(numpy.asarray(sidx[1], dtype=int), minlength=ncell).tolist():
                 run.oracle_failure(case, "spatial_counts is not the histogram of get_spatial_idx")
-        except ValueError:
+        except Exception:
             run.oracle_failure(case, "get_spatial_idx returned but spatial_counts raised")
     if bound and midx[0] == "ok":
         mc = _ints(_cat(region, evs).magnitude_counts())
@@ -350,25 +429,24 @@ def check_idx(run, drv, pending, case, region, kind, cl, bl, e, evs, region_args
         cum = [int(v) for v in numpy.asarray(c0.get_cumulative_number_of_events()).tolist()]
         if c0.get_number_of_events() != n or c0.event_count != n or cum != list(range(1, n + 1)):
             run.oracle_failure(case, f"get_number_of_events / event_count / cumulative counts are not {n} / 1..{n}")
-        from csep.core.exceptions import CSEPCatalogException
+        # a catalog without region has no cells to index: a misconfiguration outside the property's quantifier; the call is made
+        # (it must not corrupt anything) but neither the exception class nor a friendlier answer is judged
         for f in (lambda: _cat(None, evs).get_spatial_idx(), lambda: _cat(None, evs).get_mag_idx()):
             try:
                 f()
-                run.oracle_failure(case, "an index method returned for a catalog without region")
-            except CSEPCatalogException:
-                pass
+                run.count("idx:no-region:returned")
             except Exception as ex:
-                run.oracle_failure(case, f"an index method of a catalog without region raised {type(ex).__name__}")
+                run.count("idx:no-region:" + type(ex).__name__)
     la, lo, ma = rows_arg(evs)
     ed = ",".join(frac(x) for x in e) if bound else "none"
     q = drv.ask(" ".join(["c03_idx_" + kind] + region_args + [la, lo, ma, ed]))
-    pending.append(("idx", dict(case, bound=bound), q, (sidx, midx, df), dict(kind=kind, bound=bound)))
+    pending.append(("idx", dict(case, bound=bound), q, (sidx, midx, df), dict(kind=kind, bound=bound, n=n, anyout=anyout, df_ok=df_ok)))
 
 
 @_guarded
 def check_quad_idx(run, drv, pending, case, region, cell_of, edges, evs):
     e = [float(x) for x in edges]
-    b = numpy.asarray(region.bounds, dtype=float)
+    b = _qt_bounds(region)
     cl = [cell_of(lon, lat) for lon, lat, _ in evs]
     bl = [bin_of(e, m) for _, _, m in evs]
     args = [",".join(frac(v) for v in b[:, c]) for c in range(4)]
@@ -461,7 +539,7 @@ def flush(run, drv, pending):
                     same = res == mres
                 if not same:
                     run.mismatch(dict(case, op="c03_qthelpers", which=w), str(res)[:300], str(mres)[:300])
-                if state != mstate and state != aux["evs"]:
+                if state != mstate and state != aux["evs"] and res[0] != "E":
                     run.mismatch(dict(case, op="c03_qthelpers", which=w, what="catalog afterwards"), str(state)[:300], str(mstate)[:300])
         elif what == "bincat":
             toks = dict(t.split(":", 1) for t in o.split(" "))
@@ -489,6 +567,15 @@ def flush(run, drv, pending):
                 a, c = toks["df"].split("!")
                 m_d = ("ok", (ints(a), None if c == "none" else ints(c)))
             g_d = ("E",) if df[0] == "E" else ("ok", df[1])
+            # the model reproduces the code AS IT IS, incl. the incidental AttributeError of the quadtree lookup on an empty catalog and
+            # pandas' rejection of a shorter column; where the oracle accepted the property-correct alternative the model is not decisive
+            if aux["kind"] == "quad" and aux["n"] == 0:
+                if m_s == ("E",) and g_s == ("ok", []):
+                    g_s = m_s
+                if m_d == ("E",) and aux["df_ok"]:
+                    g_d = m_d
+            if aux["anyout"] and aux["n"] and m_d == ("E",) and aux["df_ok"]:
+                g_d = m_d
             if m_s != g_s or m_m != g_m or m_d != g_d:
                 run.mismatch(dict(case, op="c03_idx_" + aux["kind"]), str((g_s, g_m, g_d))[:400], o[:400])
         elif what == "cartview":
@@ -536,7 +623,7 @@ def gen_qthelper(rng, tier):
     start, step, nb = c03.gen_edges(rng)
     edges = [float(x) for x in c03.edges_array(start, step, nb, rng.choice(["library", "explicit"]))]
     region = QuadtreeGrid2D.from_quadkeys(keys)
-    b = numpy.asarray(region.bounds, dtype=float)
+    b = _qt_bounds(region)
     S, N = float(b[:, 1].min()), float(b[:, 3].max())
     W, E = float(b[:, 0].min()), float(b[:, 2].max())
     h = (edges[1] - edges[0]) if len(edges) > 1 else 0.5
